@@ -558,6 +558,7 @@ PARAM_NODE = {
     'laser.profile.laser_length': ['UniformEnergyDensity.laser_length.set'],
     'laser.profile.laser_radius': ['UniformEnergyDensity.laser_radius.set'],
     'laser.profile.energy_density': ['UniformEnergyDensity.energy_density.set'],
+    'beam.model(bcx).line': ['BeamCXLine.line.set'],        # round 6: found by the generated read table
 }
 ACCESSOR_CACHE = {'exc': 'cache:Models(ExcitationLine)', 'rec': 'cache:Models(RecombinationLine)', 'tcx': 'cache:Models(ThermalCXLine)',
                   'lrp': 'cache:Models(TotalRadiatedPower)', 'gaunt': 'cache:Models(Bremsstrahlung)', 'bcx': 'cache:Models(BeamCXLine)',
@@ -606,17 +607,21 @@ def refill_correspondence(ctx, S, M):
         for node in PARAM_NODE[n]:
             lines.append('known ' + node)
             lines.append('clears ' + node)
+            lines.append('readers ' + node)
     outs = ctx.driver(lines)
     pred = {}
+    readers = {}        # round 6: caches whose fill functions READ the parameter (generated table Gen/CacheReads)
     k = 0
     for n in names:
-        acc = set()
+        acc, racc = set(), set()
         for node in PARAM_NODE[n]:
             if outs[k] != '1':
                 ctx.broke('correspondence', 'C01 graph node', dict(mutator=n, node=node, detail='mutator node not found in the generated notification graph'))
             acc |= set(outs[k + 1].split())
-            k += 2
+            racc |= set(outs[k + 2].split())
+            k += 3
         pred[n] = acc
+        readers[n] = racc
     for n in names:
         gen, act, upd = M[n]
         cfg = copy.deepcopy(BASE)
@@ -658,6 +663,19 @@ def refill_correspondence(ctx, S, M):
         if st != 'ok':
             ctx.count('refill-check-scene-invalid-after:' + n)
             missing = set()
+        # K stream `reads`: a cache whose fill function reads the parameter (per the generated read table) must be seen to
+        # refill in the running code after that parameter is set -- same exemptions as above
+        rmissing = readers[n] - observed
+        if n in MODEL_SET_CHANGERS:
+            rmissing = {c for c in rmissing if not c.startswith('cache:Models(')}
+        if st != 'ok':
+            rmissing = set()
+        if readers[n]:
+            ctx.count('reads-check')
+        if rmissing:
+            ctx.disagreements += 1
+            ctx.broke('correspondence', 'C01 reads ' + n, dict(mutator=n, readers=sorted(readers[n]), observed_refilled=sorted(observed),
+                                                               detail='the generated read table says these caches read the parameter, the running code does not refill them: %s' % sorted(rmissing)))
         if missing:
             ctx.disagreements += 1
             ctx.broke('correspondence', 'C01 refill ' + n, dict(mutator=n, predicted_cleared=sorted(pred[n]), observed_refilled=sorted(observed),
@@ -829,7 +847,9 @@ def run(ctx):
     notify_edges.generate(ctx)
     from harness.translators import setter_events
     setter_events.generate(ctx)
-    ctx.lean_check(['Cherab.Props.C01', 'Cherab.Props.C01Notifier', 'Cherab.Props.C01Table', 'Cherab.Props.C01Subscription'], 'Cherab/Audit/C01.lean')
+    from harness.translators import cache_reads
+    cache_reads.generate(ctx)
+    ctx.lean_check(['Cherab.Props.C01', 'Cherab.Props.C01Notifier', 'Cherab.Props.C01Table', 'Cherab.Props.C01Subscription', 'Cherab.Props.C01Reads'], 'Cherab/Audit/C01.lean')
     M = mutators(S)
     refill_correspondence(ctx, S, M)
     notifier_correspondence(ctx)
